@@ -96,7 +96,7 @@ func c16Rebinding(c *vlib.Ctx) {
 				}
 			}
 			clock.Advance(vlib.Pick(r, []time.Duration{0, time.Millisecond, time.Second, 5 * time.Second, 29 * time.Second, 31 * time.Second, 10 * time.Minute}))
-			raw := fmt.Sprintf("%s://%s/hook/%d", vlib.Pick(r, []string{"https", "https", "http"}), host, k)
+			raw := fmt.Sprintf("%s://%s/hook/%d", vlib.Pick(r, []string{"https", "https", "http"}), host, k%2) // URLs repeat: a verdict remembered for a URL must not outlive the answers it was based on
 			u, _ := url.Parse(raw)
 			resolver.mu.Lock()
 			ips := append([]netip.Addr(nil), resolver.answers[host]...)
